@@ -16,11 +16,13 @@ What is modelled, branch by branch:
     panic). A panic freezes the client's writer (Go unwinds through Middleware, which has no recover: no validation,
     no flush, no ErrFunc). Calls listed after a `panic` do not exist in Go; the model lets them update the abandoned
     wrapper's private fields, which nothing reads any more (the middleware returns on `panicked` first).
-  * `Strict` — strictResponseWrapper: WriteHeader records the first status only; Write records 200 when none
+  * `Strict` — strictResponseWrapper: WriteHeader records the first status only (an informational code while
+    nothing is recorded is dropped); Write records 200 when none
     was recorded and buffers; Header() is the client's map; no http.Flusher (the handler's type assertion
     fails, Flush is a no-op); flushBodyContents forwards the recorded status only when one was recorded,
     then writes the buffer (also when empty).
-  * `Warn` — warnResponseWrapper: WriteHeader records the first status and forwards *the recorded* status;
+  * `Warn` — warnResponseWrapper: WriteHeader records the first status and forwards *the recorded* status (an
+    informational code while nothing is recorded is forwarded as it is and not recorded);
     Write forwards WriteHeader(200) first when nothing was recorded, then tees to client and buffer;
     Flush passes through (without touching the wrapper's own state).
   * `validatedStatus` — the status handed to ValidateResponse: the wrapper's recorded status, 200 when that
@@ -132,12 +134,14 @@ def firstStatus (server flushCounts : Bool) : List Op → Option Nat
   | .flush :: ops => if flushCounts then some 200 else firstStatus server flushCounts ops
   | _ :: ops => firstStatus server flushCounts ops
 
-/-- the status the wrappers record: the code of the first WriteHeader call whatever it is (none: the handler
-never called WriteHeader or Write) -/
-def wroteStatus (ops : List Op) : Option Nat := firstStatus false false ops
+/-- the status the wrappers record: the code of the first WriteHeader call that is not informational (none: the
+handler never called WriteHeader with a final code, nor Write) -/
+def wroteStatus (ops : List Op) : Option Nat := firstStatus true false ops
 
-/-- the status the handler wrote, by net/http's reading of its calls on the given transport -/
-def handlerStatus (server : Bool) (ops : List Op) : Option Nat := firstStatus server false ops
+/-- the status the handler wrote, by net/http's reading of its calls (informational codes fix nothing); the
+transport argument is kept for the statements' shape: a ResponseRecorder's own reading (1xx is final) is not what
+the property means by "the status the handler wrote" -/
+def handlerStatus (_server : Bool) (ops : List Op) : Option Nat := firstStatus true false ops
 
 /-- all bytes the handler passed to Write, in order -/
 def written : List Op → Bytes
@@ -157,7 +161,9 @@ structure Strict where
 def Strict.step (w : Strict) : Op → Strict
   | .setHdr k v => { w with client := w.client.setHdr k v }
   | .delHdr k => { w with client := w.client.delHdr k }
-  | .writeHeader n => if w.headerWritten then w else { w with status := n, headerWritten := true }
+  | .writeHeader n =>
+    -- `if !wr.headerWritten && isInformational(status) { return }`: the hint is dropped, nothing is recorded
+    if w.headerWritten then w else if isInfo n then w else { w with status := n, headerWritten := true }
   | .write bs =>
     let w1 := if w.headerWritten then w else { w with status := 200, headerWritten := true }
     { w1 with buf := w1.buf ++ bs }
@@ -180,6 +186,8 @@ structure Warn where
   deriving DecidableEq, Repr
 
 def Warn.writeHeader (w : Warn) (n : Nat) : Warn :=
+  -- `if !wr.headerWritten && isInformational(status) { wr.w.WriteHeader(status); return }`
+  if !w.headerWritten && isInfo n then { w with client := w.client.writeHeader n } else
   let w1 := if w.headerWritten then w else { w with status := n, headerWritten := true }
   { w1 with client := w1.client.writeHeader w1.status }
 
@@ -363,8 +371,11 @@ def NoPanic (ops : List Op) : Prop := Op.panic ∉ ops
 
 def panics (ops : List Op) : Bool := ops.contains .panic
 
-/-- Exclusion class of finding F-C14-2: behind a real server the handler sends an informational (1xx) response.
-Both wrappers take the first WriteHeader code for the final status. -/
+/-- The handler sends an informational (1xx) response on the given transport. This was the exclusion class of
+finding F-C14-2 (both wrappers took the code for the final status; repaired in f1b20bd: the warn wrapper forwards it,
+the strict wrapper drops it, neither records it). It survives only as the hypothesis `informational (!server) ops =
+false` of the two statements that compare with a *direct* run on a ResponseRecorder, which — unlike net/http —
+takes a 1xx for the final status. -/
 def opInfo : Op → Bool
   | .writeHeader n => isInfo n
   | _ => false
